@@ -1038,6 +1038,9 @@ def check(run):
     ]
     run.assumptions += [
         "property cleaners raise only Exception subclasses (KeyboardInterrupt/SystemExit pass through the wrapper by design)",
+        "str(exc) of whatever clean() raises returns normally (the wrapper calls it inside its handler): checked for the "
+        "library's own classes by the obligation library_exception_str_templates_constant, assumed for builtin and "
+        "third-party exception classes; exercised with format-hostile keys and values",
         "constraint hooks read CLEANED values of the slot's type (C02's territory); stix2patterns.run_validator returns a list "
         "on every non-empty string",
         "termination / interpreter stack depth is outside the model (partial): deep inputs are exercised on the implementation",
